@@ -6,8 +6,11 @@ and the feature predicates that keep known-finding signatures narrow."""
 import itertools
 import os
 import re
+import selectors
+import shutil
 import subprocess
 import sys
+import time
 
 sys.set_int_max_str_digits(0)
 
@@ -452,6 +455,35 @@ def rand_text(rng, n, alpha=ALPHA):
     return bytes(rng.choice(alpha) for _ in range(n))
 
 
+def pinned_classes():
+    """Deterministic texts every run starts with (after the corpus files), one per CLASS of place a bound or a
+    count is carried through (wave 5: a struct field or local narrower than unsigned long; an array of records
+    that is grown or indexed):
+      * every word size boundary (2^31, 2^32, 2^63 +-1, 2^64-3) at every POSITION a number can stand in -- alone,
+        as low bound, as high bound, in the first / a later element of the list, with / without a suffix (the two
+        paths build names differently), in a second bracket pair, and as the numeric tail of a plain name;
+      * element COUNTS 2^k-1, 2^k, 2^k+1 for every k up to 8192 in ONE bracket, with / without a suffix; the
+        elements are 0,2,4,.. (never coalesced: one record each, every value checkable)."""
+    out = []
+    for v in (2 ** 31 - 1, 2 ** 31 + 1, 2 ** 32 - 1, 2 ** 32 + 1, 2 ** 63 - 1, 2 ** 63 + 1, 2 ** 64 - 3):
+        for sfx in ("", "x"):
+            out.append("a[%d]%s" % (v, sfx))
+            out.append("a[1,%d]%s" % (v, sfx))
+            out.append("a[%d,1]%s" % (v, sfx))
+            out.append("a[%d-%d]%s" % (v - 1, v + 1, sfx))
+            out.append("a[7,%d-%d]%s" % (v - 1, v + 1, sfx))
+            out.append("a[%d-%d,7]%s" % (v - 2, v, sfx))
+        out.append("a[1-2]b[%d-%d]" % (v, v + 1))
+        out.append("a%d" % v)
+        out.append("%d" % v)
+    for k in range(1, 14):
+        for n in (2 ** k - 1, 2 ** k, 2 ** k + 1):
+            body = ",".join(str(2 * i) for i in range(n))
+            out.append("c[%s]" % body)
+            out.append("c[%s]s" % body)
+    return [x.encode() for x in out]
+
+
 def gen_malformed(rng, wf, dist):
     """one byte string for the C15 stream (no NUL); dist counts the shapes"""
     def note(k):
@@ -661,7 +693,14 @@ class HL:
         m = self.model(["probe %s %d" % (hx(s), LIMIT) for s in strings])
         self.ctx.log("model done")
         lines = []
+        lims = []
         for s, a in zip(strings, m):
+            # names listed by the real code for THIS text: what the model lists and a margin -- never the global
+            # LIMIT: a tree whose walk does not end where it should would print LIMIT names for every case
+            # (gigabytes per batch); below its own limit a conforming answer is the same text
+            mm = re.match(r"ok \| (-?\d+) ", a)
+            lim = min(LIMIT, max(int(mm.group(1)), 0) + 50) if mm else 1000
+            lims.append(lim)
             fork = a.startswith("ub:") or a == "diverge" or risky(s) or rng.random() < force_fork
             self.nfork += fork
             cpu = 2000
@@ -671,23 +710,51 @@ class HL:
                 self.ndiverge += 1
                 if self.ndiverge > 3:
                     cpu = 250
-            lines.append("%s %s %d %d" % ("fprobe", hx(s), LIMIT, cpu) if fork else "probe %s %d" % (hx(s), LIMIT))
+            lines.append("%s %s %d %d" % ("fprobe", hx(s), lim, cpu) if fork else "probe %s %d" % (hx(s), lim))
         out = self.impl(lines)
         # a timeout / memory ceiling ALONE (nothing predicts it) is tried once more, in a forked probe of its own with
         # three times the CPU ceiling: on a loaded machine the CPU clock of a sanitized process runs fast
         again = [i for i, (a, b) in enumerate(zip(out, m)) if a in ("timeout", "oom") and b != "diverge"][:12]
         if again:
             self.nretried = getattr(self, "nretried", 0) + len(again)
-            second = self.impl(["fprobe %s %d %d" % (hx(strings[i]), LIMIT, 6000) for i in again])
+            second = self.impl(["fprobe %s %d %d" % (hx(strings[i]), lims[i], 6000) for i in again])
             for i, a in zip(again, second):
                 out[i] = a
         return out, m
 
 
 # ------------------------------------------------------------------ CLI
+class CliGaveUp(Exception):
+    """the real pdsh keeps hitting the wall-clock ceiling: the remaining CLI cases of this run are not executed"""
+
+
+class CliBudget(Exception):
+    """the phase has used its wall-clock budget (a tree under test whose every run takes seconds, or a very
+    loaded machine): the remaining CLI cases of this run are not executed; nothing is reported"""
+
+
+def cli_phase(ctx, fn, *a, **kw):
+    """run one CLI phase of a check; when the pdsh under test hangs again and again (every such run costs its
+    whole ceiling) the phase ends early -- the offenders found so far are kept, the fact is recorded"""
+    try:
+        fn(*a, **kw)
+    except CliGaveUp as e:
+        ctx.log("CLI phase ended early:", str(e))
+        ctx.broken.append(("C-BROKEN", "pdsh runs", str(e)))
+    except CliBudget as e:
+        ctx.log("CLI phase cut:", str(e))
+
+
 class Cli:
+    MAX_TIMEOUTS = 6        # runs that may end at their ceiling before the CLI phases give up
+    RETRY_BELOW = 3         # a timeout alone is tried once more while fewer runs than this have timed out
+
     def __init__(self, ctx):
         self.ctx = ctx
+        self.ntimeout = 0
+        self.spent = 0.0
+        self.nruns = 0
+        self.budget = 180.0 if ctx.quick() else 3600.0
         self.repo = ctx.repo_build()
         self.pdsh = os.path.join(self.repo, "src/pdsh/pdsh") if self.repo else None
         self.cwd = os.path.join(ctx.scratch, "clicwd")
@@ -697,12 +764,75 @@ class Cli:
         env = {"PATH": "/usr/bin:/bin", "HOME": self.cwd, "LC_ALL": "C"}
         if env_extra:
             env.update(env_extra)
-        try:
-            p = subprocess.run([self.pdsh] + args, stdout=subprocess.PIPE, stderr=subprocess.PIPE, cwd=self.cwd,
-                               env=env, timeout=timeout, stdin=subprocess.DEVNULL)
-            return p.returncode, p.stdout, p.stderr
-        except subprocess.TimeoutExpired as e:
-            return "timeout", e.stdout or b"", e.stderr or b""
+        # A broken tree can make pdsh print without end (an iterator that never finishes) or allocate without
+        # end: the output kept is capped (OUT_CAP per stream; reaching it = the run never ends = "timeout",
+        # not tried again) and the address space of the child is limited (prlimit execs pdsh in its own pid),
+        # so the check itself stays small.  One thread, no polling: select() on the two pipes.
+        self.runaway = False
+        if self.ntimeout >= self.MAX_TIMEOUTS:
+            raise CliGaveUp("%d runs of the real pdsh ended at their wall-clock ceiling (or printed without end): "
+                            "the remaining CLI cases of this run were not executed" % self.ntimeout)
+        if self.spent > self.budget:
+            raise CliBudget("%d runs of the real pdsh took %.0f s (budget of the phase: %.0f s)" %
+                            (self.nruns, self.spent, self.budget))
+        t_start = time.time()
+        self.nruns += 1
+        cmd = ([self.PRLIMIT, "--as=%d" % self.AS_CAP, "--core=0"] if self.PRLIMIT else []) + [self.pdsh] + args
+        p = subprocess.Popen(cmd, stdout=subprocess.PIPE, stderr=subprocess.PIPE, cwd=self.cwd,
+                             env=env, stdin=subprocess.DEVNULL)
+        bufs = {p.stdout.fileno(): bytearray(), p.stderr.fileno(): bytearray()}
+        fo, fe = p.stdout.fileno(), p.stderr.fileno()
+        sel = selectors.DefaultSelector()
+        sel.register(fo, selectors.EVENT_READ)
+        sel.register(fe, selectors.EVENT_READ)
+        deadline = time.time() + timeout
+        nopen = 2
+        timed_out = False
+        while nopen:
+            left = deadline - time.time()
+            if left <= 0:
+                timed_out = True
+                break
+            for key, _ in sel.select(left):
+                try:
+                    d = os.read(key.fd, 1 << 16)
+                except OSError:
+                    d = b""
+                if not d:
+                    sel.unregister(key.fd)
+                    nopen -= 1
+                    continue
+                b = bufs[key.fd]
+                b.extend(d[:self.OUT_CAP - len(b)])
+                if len(b) >= self.OUT_CAP:
+                    self.runaway = True
+            if self.runaway:
+                timed_out = True
+                break
+        sel.close()
+        rc = None
+        if not timed_out:
+            try:
+                rc = p.wait(timeout=max(0.05, deadline - time.time()))
+            except subprocess.TimeoutExpired:
+                timed_out = True
+        if timed_out:
+            p.kill()
+            p.wait()
+        out, err = bytes(bufs[fo]), bytes(bufs[fe])
+        p.stdout.close()
+        p.stderr.close()
+        self.spent += time.time() - t_start
+        if timed_out:
+            self.ntimeout += 1
+            if self.ntimeout >= self.RETRY_BELOW:
+                self.runaway = True         # callers try a timeout once more unless `runaway`: no more second tries
+            return "timeout", out, err
+        return rc, out, err
+
+    PRLIMIT = shutil.which("prlimit")
+    OUT_CAP = 32 << 20      # bytes of stdout / stderr kept per run (the longest legitimate listing is < 1 MiB)
+    AS_CAP = 4 << 30        # address space of the pdsh child
 
     @staticmethod
     def diag(rc, err):
@@ -734,7 +864,7 @@ class Cli:
         """pdsh -Q ARGS.. -> (class, [hosts]|None, truncated); a timeout alone is tried once more"""
         for attempt in (0, 1):
             rc, out, err = self.run(["-Q"] + list(args), timeout=timeout, env_extra=env_extra)
-            if rc != "timeout":
+            if rc != "timeout" or self.runaway:
                 break
         if rc != 0:
             return self.diag(rc, err), None, False
@@ -760,7 +890,7 @@ class Cli:
         for attempt in (0, 1):
             rc, out, err = self.run(["-R", "exec", "-f", "1", "-N"] + list(args) + ["echo", "%h"], timeout=60,
                                     env_extra=env_extra)
-            if rc != "timeout":
+            if rc != "timeout" or self.runaway:
                 break
         if rc != 0:
             return self.diag(rc, err), None
